@@ -12,6 +12,7 @@ from fractions import Fraction
 
 sys.path.insert(0, os.path.dirname(os.path.abspath(__file__)))
 import common
+import c05_vec
 from common import Check
 
 PID = "C05"
@@ -721,7 +722,12 @@ def main():
                      "TruncatedNormal / nested / derived operands, each also evaluated at the corner values of its leaves; class "
                      "defaults/specifier arguments over self.<prop>; programs with list / tuple / namedtuple / dict literals and "
                      "distribution arguments mixing random and lazily evaluated elements (self.<prop>, vector-field-relative values) "
-                     "consumed by lifted functions observing type and value; a case is non-trivial when the compiled value is random and at least one sample was compared "
+                     "consumed by lifted functions observing type and value; vector expressions (harness/c05_vec.py): + - relative to / "
+                     "offset by with a constant vector of every zero pattern (8 in 3D, 4 in 2D) on either side, given as Vector / @ / tuple, "
+                     "against VectorOperatorDistribution / VectorMethodDistribution / point-in-region / random-coordinate / generic "
+                     "vector-valued operands, scalar * and / (1, 0, k, random) on both sides, rotatedBy, random nested trees, observed on "
+                     "x, y and z; directed reflected-operator family (- / // % ** divmod x order x DiscreteRange / Uniform / len x float "
+                     "constant / Range); a case is non-trivial when the compiled value is random and at least one sample was compared "
                      "with plain Python's eval; distinct by hash of the expression text")
     common.ensure_parser()
     if not c.proofs():
@@ -768,11 +774,15 @@ def main():
     tcases[5]["model"], tcases[5]["tau"] = "bin add const L 1 I 1 mux 0 2 p const L 1 I 2 p const L 1 I 3", []
     tcases[6]["model"], tcases[6]["tau"] = "un abs range 0 const I -3 const I 1", []
     tcases[7]["model"], tcases[7]["tau"] = "un abs bin sub drange 0 const I 0 const I 5 const I 4", []
-    cases = tcases + cases
+    rcases = c05_vec.reflect_cases(rng, 4 if quick else 12)
+    vcases = c05_vec.build_vcases(rng, quick)
+    cases = tcases + rcases + cases + vcases
     dcases = [gen_delayed(rng, i) for i in range(ndelayed)]
     dcases += [gen_lazy(rng, i) for i in range(nlazy)]
     for d in dcases:
         d["nsamples"] = 3 if quick else 6
+    if os.environ.get("VERIF_C05_ONLY") == "vec":      # dev aid: only the round-3 families
+        cases, dcases = rcases + vcases, []
     if c.replay:
         body = json.load(open(c.replay))
         cs = body.get("case", {}).get("case")
@@ -780,7 +790,7 @@ def main():
             cases, dcases = ([cs], []) if cs.get("kind") != "delayed" else ([], [cs])
 
     allc = cases + dcases
-    nw = min(8, common.NCPU)
+    nw = min(int(os.environ.get("VERIF_WORKERS", "8")), common.NCPU)
     chunks = [allc[i::nw] for i in range(nw)]
     chunks = [ch for ch in chunks if ch]
     results = {}
@@ -807,6 +817,21 @@ def main():
                 continue
             lines.append(f"E 1 0 1 | {len(cs['tau'])} {' '.join(map(str, cs['tau']))} | {len(s['leaves'])} {sig} | {cs['model']}")
             keys.append((cs["id"], k))
+    for cs in cases:
+        if not cs.get("vmodel"):
+            continue
+        r = results.get(cs["id"], {})
+        if "compile_error" in r:
+            lines.append(f"V 1 | 0 | 0 | {cs['vmodel']}")
+            keys.append((cs["id"], None))
+            continue
+        for k, s in enumerate(r.get("samples", [])):
+            if "leaves" not in s:
+                continue
+            ln = c05_vec.vline(cs, s)
+            if ln is not None:
+                lines.append(ln)
+                keys.append((cs["id"], k))
     mout = common.run_driver(exe, lines) if lines else []
     model = {}
     for key, line in zip(keys, mout):
@@ -824,6 +849,16 @@ def main():
         c.hist("in-model" if inmodel else "oracle-only")
         for t in cs["tags"]:
             c.hist("tag:" + (t if t.startswith("sign:div") else t.split(":")[0]))
+        if "compile_error" in r and cs.get("vmodel"):
+            # vector expressions: a compile-time error is legitimate only where constant folding divides by zero
+            c.hist("compile-error:" + r["compile_error"])
+            c.count()
+            m = model.get((cs["id"], None), "")
+            parts = [p.strip() for p in m.split("|")]
+            if not (len(parts) == 2 and parts[1].startswith("ZERO") and r["compile_error"] == "ZeroDivisionError"):
+                c.violation("oracle", "Scenic rejects at compile time a vector expression that plain Python evaluates",
+                            dict(case=cs, impl=r["compile_error"], msg=r.get("msg"), model=m, tags=cs["tags"]))
+            continue
         if "compile_error" in r:
             c.hist("compile-error:" + r["compile_error"])
             c.count()
@@ -859,6 +894,38 @@ def main():
             if s.get("in_support") is False:
                 c.violation("support-unsound", "a sampled value lies outside supportInterval",
                             dict(case=cs, sample=s, support=r.get("support"), tags=cs["tags"]))
+            # (iii') vector model: plain arithmetic (veval) vs Python, capture + sampleGiven (vcap, nev) vs Scenic
+            if cs.get("vmodel"):
+                m = model.get((cs["id"], k))
+                if m is not None:
+                    c.cov["traces_validated_against_impl"] += 1
+                    parts = [p.strip() for p in m.split("|")]
+                    if m.startswith("FAIL") or len(parts) != 2:
+                        c.violation("harness", "model driver failed", dict(case=cs, model=m), no_input=True)
+                        continue
+                    spk, spv = c05_vec.parse_vres(parts[0])
+                    cpk, cpv = c05_vec.parse_vres(parts[1])
+                    c.hist("vcls:" + (parts[1].split()[-1] if cpk != "attr" else "attr"))
+
+                    def vclose(mv, e):
+                        try:
+                            return all(close(x, y) for x, y in zip(mv, c05_vec.vec_of(e)))
+                        except ValueError:
+                            return False
+                    if pv_ok:
+                        if spk != "ok" or not vclose(spv, s["py"]):
+                            c.violation("correspondence", "model of plain vector arithmetic (veval) differs from Python",
+                                        dict(case=cs, sample=s, model=parts[0]))
+                    elif spk == "ok":
+                        c.violation("correspondence", "veval yields a vector where Python raises", dict(case=cs, sample=s, model=parts[0]))
+                    if iv_ok:
+                        if cpk != "ok" or not vclose(cpv, s["impl"]):
+                            c.violation("correspondence", "model of vector capture/sampleGiven (vcap, nev) differs from Scenic's value",
+                                        dict(case=cs, sample=s, model=parts[1], tags=cs["tags"]))
+                    elif cpk == "ok":
+                        c.violation("correspondence", "Scenic raises at sampling where the model of vector capture yields a vector",
+                                    dict(case=cs, sample=s, model=parts[1], tags=cs["tags"], impl_exc=s.get("impl_exc")))
+                continue
             # (iii) model
             m = model.get((cs["id"], k))
             if inmodel and m is not None:
@@ -954,7 +1021,9 @@ def main():
         "the oracle is CPython's eval of the same expression text on the sampled leaves",
         "corner samples: Range / TruncatedNormal / DiscreteRange leaves are set to their (closed) interval end points via "
         "Samplable.sample(subsamples); the value must lie in supportInterval and equal Python's eval at those points",
-        "model = hand-written Gallina (coq/C05/Expr.v) tied to the code by this differential run only",
+        "model = hand-written Gallina (coq/C05/Expr.v, coq/C05/Vec.v) tied to the code by this differential run only",
+        "vector cases: the oracle evaluates the text with an independent plain-Python vector class (impl_c05.PV) on the sampled "
+        "leaves; rotatedBy uses math.cos / math.sin of the sampled angle (model: their exact rationals)",
     ]
     if os.environ.get("VERIF_DEBUG"):
         with open(os.path.join(common.WORK, "c05_viol.json"), "w") as f:
